@@ -483,30 +483,59 @@ def r6_class_and_original(ctx) -> None:
     r, prog = ctx.r, ctx.prog
     r.rule("C03.R6", "string operations preserve the string class (a SigmaCasedString stays case-sensitive): methods of SigmaString that build a new string from self instantiate self.__class__; the unparsed `original` text is consulted only for values no modifier has touched")
     sc = prog.cls("sigma.types.SigmaString")
-    builders = ("__add__", "__radd__", "__getitem__", "replace_with_placeholder", "replace_placeholders", "map_parts")
-    for name in builders:
-        f = sc.methods.get(name)
-        if f is None:
+    # the string builders interpreted (sa.tabulate) on a value of a string subclass: every result is of that subclass
+    import re as _re
+    from ..tabulate import Raised
+    from .standins import string_standin
+    Str, Cased, PH, spc, senv = string_standin(ctx)
+    W = spc.WILDCARD_MULTI
+    scenarios = [
+        ("__add__", "cased + plain string object", lambda: Cased(["ab"]).call("__add__", Str(["cd", W])), ["abcd", W]),
+        ("__add__", "cased + text", lambda: Cased(["ab"]).call("__add__", "cd"), ["abcd"]),
+        ("__add__", "cased + wildcard", lambda: Cased(["ab"]).call("__add__", W), ["ab", W]),
+        ("__radd__", "text + cased", lambda: Cased(["ab"]).call("__radd__", "x"), ["xab"]),
+        ("__radd__", "wildcard + cased", lambda: Cased(["ab"]).call("__radd__", W), [W, "ab"]),
+        ("__getitem__", "slice inside one part", lambda: Cased(["abcdef"]).call("__getitem__", slice(1, 4)), ["bcd"]),
+        ("__getitem__", "slice over a wildcard", lambda: Cased(["abc", W, "def"]).call("__getitem__", slice(2, 5)), ["c", W, "d"]),
+        ("__getitem__", "single position", lambda: Cased(["abc"]).call("__getitem__", 1), ["b"]),
+        ("__getitem__", "empty range", lambda: Cased(["abc"]).call("__getitem__", slice(2, 1)), []),
+        ("replace_with_placeholder", "a match becomes a placeholder", lambda: Cased(["a-b"]).call("replace_with_placeholder", _re.compile("-"), "_dash"), None),
+        ("map_parts", "string parts mapped", lambda: Cased(["ab", W, "cd"]).call("map_parts", (lambda x: x.upper()), (lambda x: isinstance(x, str))), ["AB", W, "CD"]),
+    ]
+    per_method: dict[str, list[str]] = {}
+    for name, what, run, want in scenarios:
+        if name not in sc.methods:
             raise AnalysisError(f"anchor vanished: SigmaString.{name}")
-        plain = [c for c in walk_no_nested(f.node) if isinstance(c, ast.Call) and call_name(c) in ("SigmaString", "SigmaString.from_str")
-                 and not (c.args and name == "map_parts")]
-        own = [c for c in walk_no_nested(f.node) if isinstance(c, ast.Call) and call_name(c) == "self.__class__"]
-        loc = f.loc
-        if plain:
-            for c in plain:
-                r.violation("C03.R6", f.qual, short(prog.enclosing_stmt(c), 100),
-                            "a new string is built as plain SigmaString: for a SigmaCasedString operand the result silently loses its case sensitivity (e.g. cased|endswith, cased|contains, cased|windash)", f"{f.module.relpath}:{c.lineno}")
-        elif own:
-            r.ok("C03.R6", f.qual, f"new strings via self.__class__() ({len(own)} site(s))", loc)
+        try:
+            out = run()
+        except Raised as ex:
+            per_method.setdefault(name, []).append(f"{what}: raises {ex}")
+            continue
+        if type(out) is not Cased:
+            per_method.setdefault(name, []).append(f"{what}: the result is a {type(out).__name__} ({getattr(out, 's', out)!r}), not a string of the value's class")
+        elif want is not None and out.s != want:
+            per_method.setdefault(name, []).append(f"{what}: parts {out.s!r} instead of {want!r}")
         else:
-            r.violation("C03.R6", f.qual, f"def {name}", "method no longer instantiates self.__class__ for its result", loc)
-    # operands of another string class: '+' accepts every SigmaString and keeps the class of the left operand
-    addf = sc.methods["__add__"]
-    tests = [unparse(n.test) for n in walk_no_nested(addf.node) if isinstance(n, ast.If)]
-    if any(t == "isinstance(other, SigmaString)" for t in tests):
-        r.ok("C03.R6", addf.qual, "isinstance(other, SigmaString): strings of both classes can be joined, result class = left operand", addf.loc)
-    else:
-        r.violation("C03.R6", addf.qual, f"operand tests {tests}", "'+' accepts a string operand only if it is of the left operand's own class: a case-sensitive string cannot be joined with the plain strings placeholder replacement produces (TypeError for expand|cased with a value list)", addf.loc)
+            per_method.setdefault(name, [])
+    for name, probs in per_method.items():
+        f = sc.methods[name]
+        if not probs:
+            r.ok("C03.R6", f.qual, "new strings have the class of the value (interpreted on a string subclass)", f.loc)
+        elif name == "__add__" and "plain string object" in probs[0]:
+            r.violation("C03.R6", f.qual, f"operand tests: {probs[0]}", "'+' accepts a string operand only if it is of the left operand's own class: a case-sensitive string cannot be joined with the plain strings placeholder replacement produces (TypeError for expand|cased with a value list)", f.loc)
+        else:
+            r.violation("C03.R6", f.qual, f"{name}: {probs[0]}", "a new string is built as plain SigmaString: for a SigmaCasedString operand the result silently loses its case sensitivity (e.g. cased|endswith, cased|contains, cased|windash)", f.loc)
+    # replace_placeholders: decided with the other placeholder rules (C17.R3 interprets it on a string subclass)
+    from .c17 import _r3_string_expansion
+    n_before = len(r.findings)
+    _r3_string_expansion(ctx, sc.methods["replace_placeholders"])
+    for o in r.obligations:
+        if o.get("rule") == "C17.R3":
+            o["rule"] = "C03.R6"
+    for fnd in r.findings[n_before:]:
+        if fnd.rule == "C17.R3":
+            fnd.rule = "C03.R6"
+    r.rule_counts["C03.R6"] = r.rule_counts.get("C03.R6", 0) + r.rule_counts.pop("C17.R3", 0)
     original_reads(ctx, "C03.R6")
     r.floor("C03.R6", 8)
 
